@@ -33,6 +33,9 @@ type root18 struct {
 	hasDep bool
 	fileN  int
 	fields map[string][]string // list-valued path fields, emitted last
+	helm   bool                // give this root helm fields and a chart home
+	adv    bool                // adversarial variants allowed
+	scope  string              // the scope directory of the tree
 }
 
 func (r *root18) add(rel, content string) string {
@@ -133,6 +136,9 @@ func (r *root18) fill(rootRefs map[string][]string) {
 	rng := r.rng
 	for k, v := range rootRefs {
 		r.fields[k] = append(r.fields[k], v...)
+	}
+	if r.helm {
+		defer r.fillHelm()
 	}
 	if r.kind == "Component" {
 		r.lines = append(r.lines, "apiVersion: kustomize.config.k8s.io/v1alpha1", "kind: Component")
@@ -300,6 +306,119 @@ func (r *root18) fill(rootRefs map[string][]string) {
 	}
 }
 
+// fillHelm gives the root helm fields with a LOCAL chart home: a directory with a few files and
+// sub-directories that copyChartHome / copyDir must mirror into the destination.
+func (r *root18) fillHelm() {
+	rng := r.rng
+	t := r.t
+	home := "charts" // types.HelmDefaultHome
+	entry := ""      // what the kustomization says ("" = not mentioned)
+	exists := true
+	switch x := rng.Intn(100); {
+	case x < 35:
+		t.tag("helm:default-home")
+	case x < 55:
+		home, entry = "mycharts", "mycharts"
+		t.tag("helm:named-home")
+	case x < 65:
+		home, entry = "mycharts", "./h/../mycharts"
+		t.tag("helm:uncleaned-home")
+	case x < 72:
+		home, entry = "charts", "charts"
+		t.tag("helm:explicit-default-home")
+	case x < 82 && r.dir != r.scope:
+		home, entry = "../sharedcharts", "../sharedcharts"
+		t.tag("helm:home-outside-root")
+	case x < 90:
+		home, entry, exists = "nocharts", "nocharts", false
+		t.tag("helm:missing-home")
+	default:
+		if r.adv && rng.Bool() {
+			home, entry = "/abs-charts", "/abs-charts"
+			t.tag("helm:absolute-home")
+		} else if r.adv {
+			home, entry = "../../../outcharts", "../../../outcharts"
+			t.tag("helm:home-outside-scope")
+		} else {
+			t.tag("helm:default-home")
+		}
+	}
+	homeAbs := filepath.Join(r.dir, home)
+	if filepath.IsAbs(home) {
+		homeAbs = home
+	}
+	if exists {
+		t.Files[homeAbs+"/app/Chart.yaml"] = "apiVersion: v2\nname: app\nversion: 0.1.0\n"
+		t.Files[homeAbs+"/app/values.yaml"] = "replicas: 1\n"
+		t.Files[homeAbs+"/app/templates/cm.yaml"] = cmDoc(r.tagN + "-chart")
+		if rng.Chance(60) {
+			t.Files[homeAbs+"/app/templates/sub/extra.yaml"] = cmDoc(r.tagN + "-chart-extra")
+		}
+		if rng.Chance(50) {
+			t.Dirs = append(t.Dirs, homeAbs+"/app/crds")
+		}
+		if rng.Chance(30) {
+			t.Files[homeAbs+"/second/Chart.yaml"] = "apiVersion: v2\nname: second\nversion: 0.2.0\n"
+		}
+	}
+	values := ""
+	var more []string
+	if rng.Chance(70) {
+		values = r.spell(r.add(r.fname("hvalues", ".yaml"), "replicas: 2\n"))
+	}
+	if rng.Chance(35) {
+		more = append(more, r.spell(r.add(r.fname("hmore", ".yaml"), "replicas: 3\n")))
+	}
+	if exists && !filepath.IsAbs(home) && rng.Chance(15) {
+		// a values file INSIDE the chart home: it is copied before the home itself
+		values = filepath.Join(home, "app/values.yaml")
+		t.tag("helm:values-inside-home")
+	}
+	switch x := rng.Intn(100); {
+	case x < 60:
+		r.lines = append(r.lines, "helmCharts:", "- name: app", "  releaseName: rel")
+		if values != "" {
+			r.lines = append(r.lines, "  valuesFile: "+yq(values))
+		}
+		if len(more) > 0 {
+			r.lines = append(r.lines, "  additionalValuesFiles:")
+			for _, m := range more {
+				r.lines = append(r.lines, "  - "+yq(m))
+			}
+		}
+		if entry != "" {
+			r.lines = append(r.lines, "helmGlobals:", "  chartHome: "+yq(entry))
+		}
+		t.tag("helm:helmCharts")
+	case x < 80:
+		r.lines = append(r.lines, "helmChartInflationGenerator:", "- chartName: app", "  releaseName: rel")
+		if values != "" {
+			r.lines = append(r.lines, "  values: "+yq(values))
+		}
+		if entry != "" {
+			r.lines = append(r.lines, "  chartHome: "+yq(entry))
+		}
+		t.tag("helm:helmChartInflationGenerator")
+	default:
+		body := "apiVersion: builtin\nkind: HelmChartInflationGenerator\nmetadata:\n  name: " + r.tagN + "-helm\nname: app\nreleaseName: rel\n"
+		if values != "" {
+			body += "valuesFile: " + yq(values) + "\n"
+		}
+		if len(more) > 0 {
+			body += "additionalValuesFiles:\n"
+			for _, m := range more {
+				body += "- " + yq(m) + "\n"
+			}
+		}
+		if entry != "" {
+			body += "chartHome: " + yq(entry) + "\n"
+		}
+		f := r.add(r.fname("helmgen", ".yaml"), body)
+		r.fields["generators"] = append(r.fields["generators"], r.spell(f))
+		t.tag("helm:plugin")
+	}
+}
+
 func (r *root18) emit(kustName string) {
 	lines := append([]string{}, r.lines...)
 	for _, k := range []string{"resources", "bases", "components", "configurations", "crds",
@@ -393,7 +512,23 @@ func genTree18(rng *Rng) *tree18 {
 		default:
 			rel = "q/../" + rel
 		}
+		if strings.HasPrefix(p.dir, plans[p.from].dir+"/") && rng.Chance(35) {
+			// something inside the root's directory referenced BEFORE the root itself: the root's mirror
+			// directory then already exists when the root is localized
+			t.Files[p.dir+"/extra/ns.yaml"] = cmDoc(fmt.Sprintf("r%d-early", i))
+			refs[p.from]["resources"] = append(refs[p.from]["resources"], relTo(plans[p.from].dir, p.dir)+"/extra/ns.yaml")
+			t.tag("order:file-in-root-before-root")
+		}
 		refs[p.from][p.via] = append(refs[p.from][p.via], rel)
+	}
+	if rng.Chance(8) {
+		// a nested root referenced before the root that encloses it
+		t.Files[targetDir+"/enc/kustomization.yaml"] = "resources:\n- e.yaml\n"
+		t.Files[targetDir+"/enc/e.yaml"] = cmDoc("enc-outer")
+		t.Files[targetDir+"/enc/in/kustomization.yaml"] = "resources:\n- i.yaml\n"
+		t.Files[targetDir+"/enc/in/i.yaml"] = cmDoc("enc-inner")
+		refs[0]["resources"] = append(refs[0]["resources"], "enc/in", "enc")
+		t.tag("order:inner-root-before-outer")
 	}
 	// ---- adversarial references (each with small probability) ----
 	// dedicated scenario: newDir inside the target and a reference that enters it
@@ -495,7 +630,12 @@ func genTree18(rng *Rng) *tree18 {
 		t.Files[targetDir+"/sub-abs/kustomization.yaml"] = "resources: []\n"
 		t.tag("absolute-root")
 	}
+	if rng.Chance(14) {
+		roots[rng.Intn(len(roots))].helm = true
+	}
 	for i := range roots {
+		roots[i].adv = adv
+		roots[i].scope = scopeDir
 		roots[i].fill(refs[i])
 	}
 	if inj(10) {
@@ -585,6 +725,20 @@ func genTree18(rng *Rng) *tree18 {
 		if intoScope == targetDir {
 			scopeRoll = 60
 		}
+	}
+	allUnderTarget := true
+	for _, pl := range plans {
+		if pl.dir != targetDir && !strings.HasPrefix(pl.dir, targetDir+"/") {
+			allUnderTarget = false
+		}
+	}
+	for fp := range t.Files {
+		if strings.Contains(fp, "/sharedcharts/") {
+			allUnderTarget = false
+		}
+	}
+	if !allUnderTarget && scopeRoll >= 55 && scopeRoll < 94 && !(adv && rng.Chance(30)) {
+		scopeRoll = 0 // a default / target scope would put sibling roots outside the scope
 	}
 	switch x := scopeRoll; {
 	case x < 55:
